@@ -94,7 +94,10 @@ class Effects:
                     if not isinstance(expr.op, (ast.Add, ast.Mult, ast.Sub, ast.Mod)) else {"fresh"}
             return {"fresh"}
         if isinstance(expr, ast.Attribute):
-            return self._reach(self.classify(fi, expr.value, at, depth + 1, seen))
+            base = self.classify(fi, expr.value, at, depth + 1, seen)
+            if base <= {"fresh"} and self._ctor_fresh_field(fi, expr, at):
+                return {"deepfresh"}
+            return self._reach(base)
         if isinstance(expr, ast.Subscript):
             if isinstance(expr.slice, ast.Slice):
                 return {"fresh"}    # x[a:b] builds a new list (its elements alias the old ones)
@@ -114,6 +117,37 @@ class Effects:
         if isinstance(expr, ast.Call):
             return self._classify_call(fi, expr, at, depth, seen)
         return {"unknown:%s" % type(expr).__name__}
+
+    def _ctor_fresh_field(self, fi, expr, at):
+        """`v.a` where every definition of local v is a constructor call C(...) and C.__init__ binds `self.a` only to
+        deep copies: the field of the object under construction is itself new (ParameterizedType.t_constructor)."""
+        v = expr.value
+        if not isinstance(v, ast.Name) or not _inside(v, fi.node):
+            return False
+        try:
+            defs = cfg_of(fi.node).defs_reaching(v.id, v)
+        except AnalysisError:
+            return False
+        if not defs:
+            return False
+        for _d, val, k in defs:
+            if k != "assign" or not isinstance(val, ast.Call) or not hasattr(val, "_module"):
+                return False
+            tgt = self.repo.resolve_name_expr(val.func, val._module, fi)
+            if not isinstance(tgt, ClassInfo):
+                return False
+            init = tgt.lookup("__init__")
+            if init is None:
+                return False
+            stores = [n for n in iter_own_nodes(init.node) if isinstance(n, ast.Assign) and any(
+                isinstance(t, ast.Attribute) and isinstance(t.value, ast.Name) and t.value.id == "self" and
+                t.attr == expr.attr for t in n.targets)]
+            if not stores:
+                return False
+            for st in stores:
+                if not (isinstance(st.value, ast.Call) and call_name(st.value) in DEEP_FRESH_CALLS):
+                    return False
+        return True
 
     def _reach(self, tags):
         out = set()
